@@ -350,9 +350,299 @@ theorem C12_term_remove (d : TD) (id j : Nat) :
     simp only
     exact join_set d.terms id j none hlt
 
+/-! ### elements: the same table statements -/
+
+theorem join_setE {α} (l : List (Option α)) (id j : Nat) (x : Option α) (h : id < l.length) :
+    ((l.set id x)[j]?).join = if j = id then x else (l[j]?).join := by
+  by_cases hj : j = id
+  · subst hj; simp [h]
+  · simp [hj, List.getElem?_set_ne (Ne.symm hj)]
+
+theorem padTo_get {α} (l : List (Option α)) (n j : Nat) : ((padTo l n)[j]?).join = (l[j]?).join := by
+  unfold padTo
+  by_cases hl : j < l.length
+  · rw [List.getElem?_append_left hl]
+  · rw [List.getElem?_append_right (by omega)]
+    have h1 : l[j]? = none := List.getElem?_eq_none (by omega)
+    rw [h1]
+    cases h : (List.replicate (n - l.length) (none : Option α))[j - l.length]? with
+    | none => rfl
+    | some v =>
+      have := List.getElem?_eq_some_iff.mp h
+      obtain ⟨_, hv⟩ := this
+      simp at hv; subst hv; rfl
+
+/-- an element definition is refused exactly when the id is in use and not below the last step mark -/
+theorem C12_elem_redefinition (d : TD) (id : Nat) (ts : List Nat) (c : Nat) : d.addElement id ts c = none ↔ d.isNewElem id = true := by
+  unfold TD.addElement TD.isNewElem
+  by_cases hh : d.hasElem id = true <;> by_cases hf : id ≥ d.fElem <;> simp [hh, hf]
+
+theorem C12_elem_new_iff (d : TD) (id : Nat) : d.isNewElem id = true ↔ ((d.getElem id).isSome ∧ id ≥ d.fElem) := by
+  unfold TD.isNewElem TD.hasElem; simp
+
+/-- what was stored comes back (terms, condition); every other element id is untouched -/
+theorem C12_elem_add (d d' : TD) (id : Nat) (ts : List Nat) (c : Nat) (hs : d.addElement id ts c = some d') (j : Nat) :
+    d'.getElem j = if j = id then some { terms := ts, cond := c, slot := c != 0 } else d.getElem j := by
+  unfold TD.addElement at hs
+  by_cases hh : d.hasElem id = true
+  · simp only [hh, Bool.not_true, Bool.false_eq_true, ↓reduceIte] at hs
+    by_cases hn : d.isNewElem id = true
+    · simp [hn] at hs
+    · simp only [hn, Bool.false_eq_true, ↓reduceIte, Option.some.injEq] at hs
+      subst hs
+      cases hg : d.getElem id with
+      | none => have : (d.getElem id).isSome = true := hh; rw [hg] at this; cases this
+      | some e0 =>
+        have hlt := (List.getElem?_eq_some_iff.mp (getElem_some hg)).1
+        unfold TD.getElem
+        exact join_setE d.elems id j _ hlt
+  · have hh' : d.hasElem id = false := by simpa using hh
+    simp only [hh', Bool.not_false, ↓reduceIte, Option.some.injEq] at hs
+    subst hs
+    unfold TD.getElem
+    simp only
+    have hlen : id < (padTo d.elems (id + 1)).length := by unfold padTo; simp; omega
+    rw [join_setE (padTo d.elems (id + 1)) id j _ hlen, padTo_get]
+
+/-- a deferred condition can be set exactly once, and only that element changes -/
+theorem C12_set_condition (d d' : TD) (id c : Nat) (hs : d.setCondition id c = some d') :
+    ∃ e, d.getElem id = some e ∧ e.cond = COND_DEFERRED ∧ ∀ j, d'.getElem j = if j = id then some { e with cond := c } else d.getElem j := by
+  unfold TD.setCondition at hs
+  cases hg : d.getElem id with
+  | none => simp [hg] at hs
+  | some e =>
+    simp only [hg] at hs
+    by_cases hc : e.cond = COND_DEFERRED
+    · simp only [hc, beq_self_eq_true, ↓reduceIte, Option.some.injEq] at hs
+      subst hs
+      refine ⟨e, rfl, hc, fun j => ?_⟩
+      have hlt := (List.getElem?_eq_some_iff.mp (getElem_some hg)).1
+      unfold TD.getElem
+      exact join_setE d.elems id j _ hlt
+    · have : (e.cond == COND_DEFERRED) = false := by simpa using hc
+      simp [this] at hs
+
+theorem C12_set_condition_refused (d : TD) (id c : Nat) :
+    d.setCondition id c = none ↔ ∀ e, d.getElem id = some e → e.cond ≠ COND_DEFERRED := by
+  unfold TD.setCondition
+  cases hg : d.getElem id with
+  | none => simp
+  | some e => by_cases hc : e.cond = COND_DEFERRED <;> simp [hc]
+
+/-! ### atoms, steps, and independence of the three tables -/
+
+/-- atoms are kept in the order they were added -/
+theorem C12_atom_add (d : TD) (a : Atom) : (d.addAtom a).atoms = d.atoms ++ [a] ∧ (d.addAtom a).terms = d.terms ∧ (d.addAtom a).elems = d.elems := ⟨rfl, rfl, rfl⟩
+
+/-- `filter` never touches atoms of earlier steps, keeps the order, and removes exactly the atoms of the current step that have a
+    non-zero atom satisfying the predicate -/
+theorem C12_filter (d : TD) (f : Atom → Bool) (h : d.fAtom ≤ d.atoms.length) :
+    (d.filter f).atoms.take d.fAtom = d.atoms.take d.fAtom ∧
+    (d.filter f).atoms.drop d.fAtom = (d.atoms.drop d.fAtom).filter (fun a => a.atom == 0 || !f a) ∧
+    (d.filter f).terms = d.terms ∧ (d.filter f).elems = d.elems := by
+  have hl : (d.atoms.take d.fAtom).length = d.fAtom := by simp; omega
+  refine ⟨?_, ?_, rfl, rfl⟩
+  · unfold TD.filter; simp only
+    rw [List.take_left' hl]
+  · unfold TD.filter; simp only
+    rw [List.drop_left' hl]
+
+/-- the step mark: after `update` nothing is new; ids added afterwards are -/
+theorem C12_update (d : TD) : (∀ id, d.update.isNewTerm id = false) ∧ (∀ id, d.update.isNewElem id = false) ∧
+    d.update.terms = d.terms ∧ d.update.elems = d.elems ∧ d.update.atoms = d.atoms ∧ d.update.fAtom = d.atoms.length := by
+  refine ⟨fun id => ?_, fun id => ?_, rfl, rfl, rfl, rfl⟩
+  · unfold TD.isNewTerm TD.hasTerm TD.getTerm TD.update
+    simp only
+    by_cases h : id < d.terms.length
+    · simp [h]
+    · simp [List.getElem?_eq_none (Nat.le_of_not_lt h)]
+  · unfold TD.isNewElem TD.hasElem TD.getElem TD.update
+    simp only
+    by_cases h : id < d.elems.length
+    · simp [h]
+    · simp [List.getElem?_eq_none (Nat.le_of_not_lt h)]
+
+/-- operations on one table leave the other tables alone -/
+theorem C12_tables_independent (d d' : TD) :
+    (∀ id t, d.addTerm id t = some d' → d'.elems = d.elems ∧ d'.atoms = d.atoms) ∧
+    (∀ id, (d.removeTerm id).elems = d.elems ∧ (d.removeTerm id).atoms = d.atoms) ∧
+    (∀ id ts c, d.addElement id ts c = some d' → d'.terms = d.terms ∧ d'.atoms = d.atoms) ∧
+    (∀ id c, d.setCondition id c = some d' → d'.terms = d.terms ∧ d'.atoms = d.atoms) := by
+  refine ⟨fun id t hs => ?_, fun id => ?_, fun id ts c hs => ?_, fun id c hs => ?_⟩
+  · unfold TD.addTerm at hs
+    split at hs
+    · cases hs; exact ⟨rfl, rfl⟩
+    · split at hs
+      · cases hs
+      · cases hs; unfold TD.removeTerm; split <;> exact ⟨rfl, rfl⟩
+  · unfold TD.removeTerm; split <;> exact ⟨rfl, rfl⟩
+  · unfold TD.addElement at hs
+    simp only at hs
+    split at hs
+    · cases hs; exact ⟨rfl, rfl⟩
+    · split at hs
+      · cases hs
+      · cases hs; exact ⟨rfl, rfl⟩
+  · unfold TD.setCondition at hs
+    split at hs
+    · split at hs
+      · cases hs; exact ⟨rfl, rfl⟩
+      · cases hs
+    · cases hs
+
+/-! ### visiting -/
+
+/-- an invariant of the accumulator is an invariant of a monadic fold over `Option` -/
+theorem foldlM_inv {α β : Type} (Inv : β → Prop) (f : β → α → Option β) : ∀ (l : List α) (init r : β),
+    (∀ acc x acc', x ∈ l → Inv acc → f acc x = some acc' → Inv acc') → Inv init → l.foldlM f init = some r → Inv r := by
+  intro l
+  induction l with
+  | nil => intro init r _ hi hr; simp [List.foldlM] at hr; subst hr; exact hi
+  | cons x xs ih =>
+    intro init r hstep hi hr
+    simp only [List.foldlM, bind, Option.bind] at hr
+    cases hf : f init x with
+    | none => rw [hf] at hr; cases hr
+    | some b =>
+      rw [hf] at hr
+      exact ih b r (fun acc y acc' hy => hstep acc y acc' (List.mem_cons_of_mem _ hy)) (hstep init x b (by simp) hi hf) hr
+
+/-- what may legitimately be shown to a visitor: stored items only, and in `current` mode only items of the current step -/
+def Shown (d : TD) (cur : Bool) : Seen → Prop
+  | .term id => d.hasTerm id = true ∧ (cur = true → d.isNewTerm id = true)
+  | .elem id => d.hasElem id = true ∧ (cur = true → d.isNewElem id = true)
+  | .atom i => i < d.atoms.length ∧ (cur = true → d.fAtom ≤ i)
+  | .missing => False
+
+theorem visitTerm_shown (d : TD) (cur : Bool) : ∀ (fuel id : Nat) (acc res : List Seen), (∀ s ∈ acc, Shown d cur s) →
+    (cur = true → d.isNewTerm id = true) → d.visitTerm cur fuel id acc = some res → ∀ s ∈ res, Shown d cur s := by
+  intro fuel
+  induction fuel with
+  | zero => intro id acc res _ _ hr; simp [TD.visitTerm] at hr
+  | succ f ih =>
+    intro id acc res hacc hnew hr
+    simp only [TD.visitTerm] at hr
+    cases hg : d.getTerm id with
+    | none => simp [hg] at hr
+    | some t =>
+      simp only [hg] at hr
+      have hacc1 : ∀ s ∈ acc ++ [Seen.term id], Shown d cur s := by
+        intro s hs
+        simp only [List.mem_append, List.mem_singleton] at hs
+        rcases hs with hs | rfl
+        · exact hacc s hs
+        · exact ⟨by simp [TD.hasTerm, hg], hnew⟩
+      cases t with
+      | num n => simp only [Option.some.injEq] at hr; subst hr; exact hacc1
+      | sym nm => simp only [Option.some.injEq] at hr; subst hr; exact hacc1
+      | comp base args =>
+        simp only at hr
+        refine foldlM_inv (fun a => ∀ s ∈ a, Shown d cur s) _ _ _ res ?_ hacc1 hr
+        intro a x a' _ ha hx
+        by_cases hdo : d.doTerm cur x = true
+        · simp only [hdo, ↓reduceIte] at hx
+          refine ih x a a' ha ?_ hx
+          intro hc
+          simp only [TD.doTerm, hc, Bool.not_true, Bool.false_or] at hdo
+          exact hdo
+        · simp only [hdo, Bool.false_eq_true, ↓reduceIte, Option.some.injEq] at hx
+          subst hx; exact ha
+
+theorem optTerm_shown (d : TD) (cur : Bool) (fuel i : Nat) (acc res : List Seen) (hacc : ∀ s ∈ acc, Shown d cur s)
+    (hr : d.optTerm cur fuel acc i = some res) : ∀ s ∈ res, Shown d cur s := by
+  unfold TD.optTerm at hr
+  by_cases hdo : d.doTerm cur i = true
+  · simp only [hdo, ↓reduceIte] at hr
+    refine visitTerm_shown d cur fuel i acc res hacc ?_ hr
+    intro hc
+    simp only [TD.doTerm, hc, Bool.not_true, Bool.false_or] at hdo
+    exact hdo
+  · simp only [hdo, Bool.false_eq_true, ↓reduceIte, Option.some.injEq] at hr
+    subst hr; exact hacc
+
+theorem visitElem_shown (d : TD) (cur : Bool) (fuel id : Nat) (acc res : List Seen) (hacc : ∀ s ∈ acc, Shown d cur s)
+    (hnew : cur = true → d.isNewElem id = true) (hr : d.visitElem cur fuel id acc = some res) : ∀ s ∈ res, Shown d cur s := by
+  unfold TD.visitElem at hr
+  cases hg : d.getElem id with
+  | none => simp [hg] at hr
+  | some e =>
+    simp only [hg] at hr
+    refine foldlM_inv (fun a => ∀ s ∈ a, Shown d cur s) _ _ _ res (fun a x a' _ ha hx => optTerm_shown d cur fuel x a a' ha hx) ?_ hr
+    intro s hs
+    simp only [List.mem_append, List.mem_singleton] at hs
+    rcases hs with hs | rfl
+    · exact hacc s hs
+    · exact ⟨by simp [TD.hasElem, hg], hnew⟩
+
+theorem optElem_shown (d : TD) (cur : Bool) (fuel e : Nat) (acc res : List Seen) (hacc : ∀ s ∈ acc, Shown d cur s)
+    (hr : d.optElem cur fuel acc e = some res) : ∀ s ∈ res, Shown d cur s := by
+  unfold TD.optElem at hr
+  by_cases hdo : d.doElem cur e = true
+  · simp only [hdo, ↓reduceIte] at hr
+    refine visitElem_shown d cur fuel e acc res hacc ?_ hr
+    intro hc
+    simp only [TD.doElem, hc, Bool.not_true, Bool.false_or] at hdo
+    exact hdo
+  · simp only [hdo, Bool.false_eq_true, ↓reduceIte, Option.some.injEq] at hr
+    subst hr; exact hacc
+
+theorem visitAtom_shown (d : TD) (cur : Bool) (fuel i : Nat) (a : Atom) (acc res : List Seen) (hacc : ∀ s ∈ acc, Shown d cur s)
+    (hi : i < d.atoms.length ∧ (cur = true → d.fAtom ≤ i)) (hr : d.visitAtom cur fuel i a acc = some res) : ∀ s ∈ res, Shown d cur s := by
+  unfold TD.visitAtom at hr
+  have h0 : ∀ s ∈ acc ++ [Seen.atom i], Shown d cur s := by
+    intro s hs
+    simp only [List.mem_append, List.mem_singleton] at hs
+    rcases hs with hs | rfl
+    · exact hacc s hs
+    · exact hi
+  cases h1 : d.optTerm cur fuel (acc ++ [Seen.atom i]) a.term with
+  | none => rw [h1] at hr; cases hr
+  | some r1 =>
+    rw [h1] at hr
+    simp only [Option.bind_some] at hr
+    have s1 := optTerm_shown d cur fuel a.term _ r1 h0 h1
+    cases h2 : a.elems.foldlM (d.optElem cur fuel) r1 with
+    | none => rw [h2] at hr; cases hr
+    | some r2 =>
+      rw [h2] at hr
+      simp only [Option.bind_some] at hr
+      have s2 : ∀ s ∈ r2, Shown d cur s :=
+        foldlM_inv (fun a => ∀ s ∈ a, Shown d cur s) _ _ _ r2 (fun b x b' _ hb hx => optElem_shown d cur fuel x b b' hb hx) s1 h2
+      cases hgd : a.guard with
+      | none => rw [hgd] at hr; simp only [Option.some.injEq] at hr; subst hr; exact s2
+      | some g =>
+        obtain ⟨op, rhs⟩ := g
+        rw [hgd] at hr
+        simp only at hr
+        cases h3 : d.optTerm cur fuel r2 op with
+        | none => rw [h3] at hr; cases hr
+        | some r3 =>
+          rw [h3] at hr
+          simp only [Option.bind_some] at hr
+          exact optTerm_shown d cur fuel rhs r3 res (optTerm_shown d cur fuel op r2 r3 s2 h3) hr
+
+/-- **visiting is sound**: whatever a fully recursive visitor is shown — in either mode, on any store — is stored; in `current`
+    mode it is an atom, element or term added since the last step mark. -/
+theorem C12_visit_sound (d : TD) (cur : Bool) (res : List Seen) (hr : d.visit cur = some res) : ∀ s ∈ res, Shown d cur s := by
+  unfold TD.visit at hr
+  refine foldlM_inv (fun a => ∀ s ∈ a, Shown d cur s) _ _ _ res ?_ (by simp) hr
+  intro acc p acc' hp hacc hx
+  have hm := List.mem_of_mem_drop hp
+  have hidx := List.mem_zipIdx hm
+  refine visitAtom_shown d cur _ p.2 p.1 acc acc' hacc ⟨by omega, fun hc => ?_⟩ hx
+  -- in `current` mode the traversal starts at the step frame
+  simp only [hc, ↓reduceIte] at hp
+  obtain ⟨k, hk, hget⟩ := List.mem_iff_getElem.mp hp
+  rw [List.getElem_drop, List.getElem_zipIdx] at hget
+  have : p.2 = 0 + (d.fAtom + k) := by rw [← hget]
+  omega
+
 /-! non-vacuity -/
 example : ((run {} [.addTerm 3 (.num 1), .addTerm 3 (.comp 0 []), .update, .addTerm 3 (.comp (-1) [1, 2]), .addTerm 0 (.sym [97])]).getTerm 3)
     = some (.comp (-1) [1, 2]) := by decide
 example : (run {} [.addTerm 3 (.sym [97]), .addAtom ⟨2, 3, [], none⟩, .update, .addAtom ⟨4, 3, [0], some (1, 2)⟩, .filter 2]).live = 2 := by decide
+
+example : (run {} [.addTerm 0 (.num 1), .addTerm 1 (.comp 0 [0]), .addElement 0 [1] 0, .addAtom ⟨1, 0, [0], some (0, 1)⟩, .update,
+    .addTerm 2 (.num 5), .addAtom ⟨0, 2, [0], some (0, 2)⟩]).visit true = some [.atom 1, .term 2, .term 2] := by decide +kernel
 
 end PotasscoVerif.C12
